@@ -269,11 +269,12 @@ class Formatter(ABC):
         _prefix: str = prefix or ""
         _suffix: str = suffix or ""
         regexes = cls.regex()
-        for fmt_match in re.finditer(r"(%?%[-+!*]?[A-Za-z])", fmt):
+
+        def _to_regex(fmt_match: re.Match[str]) -> str:
+            """Return the regular expression of one format string token."""
             fmt_str: str = fmt_match.group()
-            if fmt_str.startswith("%%"):
-                fmt = fmt.replace(fmt_str, fmt_str[1:], 1)
-                continue
+            if fmt_str == "%%":
+                return "%"
             if fmt_str not in regexes:
                 raise FormatterArgumentError(
                     "fmt",
@@ -309,8 +310,12 @@ class Formatter(ABC):
                     "Regex format string does not set group name for "
                     "parsing value to its class."
                 )
-            fmt = fmt.replace(fmt_str, regex, 1)
-        return fmt
+            return regex
+
+        # NOTE: read the format string in one pass from left to right, the
+        #   same way that the format method reads it: ``%%`` is a percent sign
+        #   wherever it stands.
+        return re.sub(r"%%|%[-+!*]?[A-Za-z]", _to_regex, fmt)
 
     @classmethod
     @lru_cache(maxsize=None)
